@@ -223,3 +223,21 @@ Definition in_critical_section (t : thread) : bool :=
   end.
 
 End Semantics.
+
+(* the output structure a thread is currently working on *)
+Definition active_sid (t : thread) : option nat :=
+  match t_calls t, t_pc t with
+  | _ :: _, PRun => t_sid t
+  | _ :: _, POwn => t_sid t
+  | _ :: _, PReturn => t_sid t
+  | _, _ => None
+  end.
+
+(* thread i can make a step that is neither a wait for the lock nor a no-op *)
+Definition enabled (st : state) (i : nat) : bool :=
+  match t_calls (threads st i), t_pc (threads st i), lock st with
+  | [], _, _ => false
+  | _, PError, _ => false
+  | _, PAcquire, Some _ => false
+  | _, _, _ => true
+  end.
